@@ -21,6 +21,15 @@ def extra(tier, rng):
     add("collide", [srv.dnode(["d"], t), srv.fnode(["d", "readme.txt"], 10, cid="r1", mtime=t + 1), srv.fnode(["d", "README.TXT"], 20, cid="r2", mtime=t + 2),
                     srv.dnode(["d", "Dir"], t + 3), srv.dnode(["d", "DIR"], t + 4), srv.fnode(["d", "Dir", "a"], 1, cid="da", mtime=t + 5),
                     srv.fnode(["d", "DIR", "b"], 2, cid="db", mtime=t + 6), srv.fnode(["d", "a b"], 3, cid="ab1", mtime=t + 7), srv.fnode(["d", "a_b"], 4, cid="ab2", mtime=t + 8)])
+    # the directory that becomes the image: its name goes into the volume identifiers (32 / 128 bytes; half as many characters
+    # in the supplementary descriptor)
+    for ln in ([8, 16, 17, 32, 33, 64, 65, 128, 129, 255] if full else [16, 17, 33, 65, 200]):
+        rn = "R" * ln
+        cases.append({"name": "rootname%d" % ln, "nodes": [srv.dnode([rn], t), srv.fnode([rn, "a.bin"], 10, cid="rn%d" % ln, mtime=t + 1)],
+                      "dir": [rn], "ps3": False, "titleId": ["", ""], "decode": True, "ops": []})
+    for k, rn in enumerate(["ゲームのディレクトリ名前", "папка с игрой номер один", "my game (EU) [v1.02] + dlc"]):
+        cases.append({"name": "rootname-u%d" % k, "nodes": [srv.dnode([rn], t), srv.fnode([rn, "a.bin"], 10, cid="rnu%d" % k, mtime=t + 1)],
+                      "dir": [rn], "ps3": False, "titleId": ["", ""], "decode": True, "ops": []})
     # a file and a directory whose identifiers collide after mapping (empty and non-empty file, either spelling first)
     k = 0
     for fname, dname in [("a b", "a_b"), ("a_b", "a b"), ("x", "X"), ("X", "x"), ("q+1", "q_1")]:
